@@ -4,7 +4,7 @@
    parser).  Model of the code as it is now: CsvModel.v (after fix: 598f817 F21, e6b2b49 F24, c131fe5 F23, 04a3ed1 F25).
    Two statements are still false of the code (F18, F22): the full statement stays as a Definition in CsvProofs.v,
    repeated in the comment, with T_..._refuted and a theorem that says what happens instead on the whole class. *)
-From BS Require Import Base CsvSpec CsvSpecProofs CsvModel CsvWriterProofs CsvReaderProofs CsvStreamProofs CsvTotalProofs CsvStreamTotal CsvProofs.
+From BS Require Import Base CsvSpec CsvSpecProofs CsvSpecComplete CsvModel CsvWriterProofs CsvReaderProofs CsvStreamProofs CsvTotalProofs CsvStreamTotal CsvProofs.
 Local Open Scope N_scope.
 
 (* ---- the specification is coherent: the reference parser inverts every rendering of every table ---- *)
@@ -12,6 +12,12 @@ Theorem T_C09_spec_parse_inverts_render : forall sep chs final t text, sane_sep 
   render sep chs final t = Some text -> rfc_parse sep text = Some t.
 Proof. exact render_parse. Qed.
 Print Assumptions T_C09_spec_parse_inverts_render.
+
+(* ... and accepts nothing else: every text it accepts is a rendering of the table it returns *)
+Theorem T_C09_spec_parse_accepts_only_renderings : forall sep text t, rfc_parse sep text = Some t ->
+  exists chs final, render sep chs final t = Some text.
+Proof. exact parse_render. Qed.
+Print Assumptions T_C09_spec_parse_accepts_only_renderings.
 
 (* ---- writer: an independent RFC 4180 parser recovers header and rows from the output, for arbitrary byte-string
    fields (separators, quotes, CR, LF, any UTF-8) and every allowed separator ---- *)
@@ -104,6 +110,26 @@ Theorem T_C09_width_rejected_stream : forall K sep chs final hdr recs text keys,
   csv_load_stream K sep keys text = Err ParsingError.
 Proof. exact reader_width_stream. Qed.
 Print Assumptions T_C09_width_rejected_stream.
+
+(* ---- the reader theorems stated on the reference parser instead of the renderer: whatever text rfc_parse accepts,
+   both loaders return exactly the table it returns (selected by column name), resp. reject it when a record's
+   width differs ---- *)
+Theorem T_C09_reader_agrees_with_reference_parser : forall sep text hdr rows keys,
+  allowed sep -> NoDup hdr -> uniform hdr rows ->
+  rfc_parse sep text = Some (hdr :: rows) ->
+  csv_load sep keys text = Ok (select hdr keys rows) /\
+  (forall K, (0 < K)%nat -> forall stext, stream_payload K stext = text ->
+     csv_load_stream K sep keys stext = Ok (select hdr keys rows)).
+Proof. exact reader_rfc_parsed. Qed.
+Print Assumptions T_C09_reader_agrees_with_reference_parser.
+
+Theorem T_C09_width_rejected_reference_parser : forall sep text hdr recs keys, allowed sep ->
+  rfc_parse sep text = Some (hdr :: recs) -> Exists (fun r => length r <> length hdr) recs ->
+  csv_load sep keys text = Err ParsingError /\
+  (forall K, (0 < K)%nat -> forall stext, stream_payload K stext = text ->
+     csv_load_stream K sep keys stext = Err ParsingError).
+Proof. exact reader_width_parsed. Qed.
+Print Assumptions T_C09_width_rejected_reference_parser.
 
 (* memory and stream loading give the same answer on every RFC 4180 text (same rows or the same error) *)
 Theorem T_C09_stream_eq_mem : forall K sep chs final t text keys, (0 < K)%nat -> allowed sep ->
